@@ -109,6 +109,8 @@ SCOPES = {
     "C03": lambda t: "/go/" not in t.fn.file,
     "C04": lambda t: t.fn.name == "occurs",
     "C20": lambda t: t.fn.file.endswith("typer/unify.rs"),
+    # what instantiates `Self` in a trait method's signature, and what resolves a receiver's type
+    "C17": lambda t: "/typer/" in t.fn.file,
 }
 
 
@@ -183,7 +185,7 @@ def r07_2(run, model, only_file=None, scope=None):
         run.floor(f"structural Ty traversals in {only_file}", n, 1)
         return
     if scope is not None and scope != "C07":
-        run.floor(f"structural Ty traversals in the scope of {scope}", n, {"C04": 1, "C20": 3}.get(scope, 8))
+        run.floor(f"structural Ty traversals in the scope of {scope}", n, {"C04": 1, "C20": 3, "C17": 12}.get(scope, 8))
         return
     run.floor("structural Ty traversals", n, 18)
     for rel, name in ANCHOR_TRAVERSALS:
